@@ -41,6 +41,7 @@ BOUND = 2.5          # aborted in-band no later than LIMIT + BOUND (1 granule + 
 KILL = 6.0           # hard kill LIMIT + KILL seconds after the start of the invocation
 DEVS = ["PcallCatchesTimeout", "CoroutineNoHook", "HookControlExported", "NestedInvokeResetsHook", "NestedTimeoutInBand"]
 MAXEV = 14           # events reported per run (a prefix of the real behaviour)
+MAXLATE = 2          # notes "the time limit came back in-band from a nested invocation" kept beyond that prefix
 
 BODY = {
     "tight": "while true do end",
@@ -48,12 +49,13 @@ BODY = {
     "tailrec": "local function r(n) return r(n + 1) end\nr(1)",
     "deeprec": "local function r(n) return 1 + r(n + 1) end\nr(1)",
     # a loop that keeps making benign nested invocations: the count hook practically always fires inside one
-    "invloop": "while true do local v = frame:preprocess('{{#invoke:c07ben|f}}') end",
+    # (it reports when one of them comes back as the in-band timeout element; {i} = len(wrap) + 1, the level of the body)
+    "invloop": "while true do local v = frame:preprocess('{{{{#invoke:c07ben|f}}}}') if nres(v) == 'timeout' then ev('nret', {i}, 'timeout') end end",
 }
 # wrappers whose INNER runs in a NESTED invocation of function n<i> of the same module, and how it is reached
 NESTED = {
     "ninv": "frame:preprocess('{{{{#invoke:{m}|n{i}}}}}')",
-    "ninvt": "frame:expandTemplate{{ title = '{m}_n{i}' }}",       # Template:<m>_n<i> = {{#invoke:<m>|n<i>}}
+    "ninvt": "frame:expandTemplate{{ title = '{m}t{i}' }}",       # Template:<m>t<i> = {{#invoke:<m>|n<i>}} (no '_': titles are normalised)
     "ninvx": "frame:extensionTag('span', '{{{{#invoke:{m}|n{i}}}}}')",
 }
 
@@ -94,7 +96,7 @@ def lua_function(name: str, code: str) -> str:
 def render(body: str, wrap: list[str], name: str = "c07p0") -> str:
     """One module per program.  A wrapper of NESTED cuts the program: INNER becomes function n<i> of the
     module, the enclosing code reaches it through Python (a nested call_lua_sandbox) and reports what came back."""
-    code = BODY[body]
+    code = BODY[body].format(i=len(wrap) + 1) if body == "invloop" else BODY[body]
     fns = []
     for i in range(len(wrap), 0, -1):
         w = wrap[i - 1]
@@ -108,8 +110,16 @@ def render(body: str, wrap: list[str], name: str = "c07p0") -> str:
     return (
         "local p = {}\n"
         "local nev = 0\n"
+        "local nlate = 0\n"
         "local function ev(what, i, x)\n"
-        f"  if nev >= {MAXEV} then return end\n"
+        f"  if nev >= {MAXEV} then\n"
+        "    -- beyond the reported prefix only the fact that the time limit came back in-band from a nested invocation is noted\n"
+        f"    if what == 'nret' and x == 'timeout' and nlate < {MAXLATE} then\n"
+        "      nlate = nlate + 1\n"
+        "      mw_python_get_page_content('c07late|' .. i, 0)\n"
+        "    end\n"
+        "    return\n"
+        "  end\n"
         "  nev = nev + 1\n"
         "  mw_python_get_page_content('c07ev|' .. what .. '|' .. i .. '|' .. tostring(x), 0)\n"
         "end\n"
@@ -126,7 +136,7 @@ def render(body: str, wrap: list[str], name: str = "c07p0") -> str:
 
 
 def nested_templates(wrap: list[str], name: str) -> dict:
-    return {f"{name}_n{i}": "{{#invoke:%s|n%d}}" % (name, i) for i, w in enumerate(wrap, start=1) if w == "ninvt"}
+    return {f"{name}t{i}": "{{#invoke:%s|n%d}}" % (name, i) for i, w in enumerate(wrap, start=1) if w == "ninvt"}
 
 
 BEN = "local p = {} function p.f(frame) return 'ben' .. (frame.args[1] or '') end return p"
@@ -147,9 +157,15 @@ def child(progs, d: str, conn):
     from wikitextprocessor import Wtp
 
     events: list = []
+    late: list = []
 
     class RecWtp(Wtp):
         def get_page_body(self, title, namespace_id):
+            if isinstance(title, str) and title.startswith("c07late|"):
+                if len(late) < MAXLATE:
+                    late.append(int(title.split("|")[1]))
+                    conn.send(("late", late[-1]))
+                return None
             if isinstance(title, str) and title.startswith("c07ev|"):
                 if len(events) < MAXEV:  # (the counter of the module is per load of the module)
                     events.append(title.split("|", 3)[1:])
@@ -174,6 +190,7 @@ def child(progs, d: str, conn):
     ctx.start_page("Tt")
     for k, p in enumerate(progs):
         del events[:]
+        del late[:]
         conn.send(("start", k, time.time()))
         t0 = time.time()
         try:
@@ -182,7 +199,7 @@ def child(progs, d: str, conn):
         except BaseException as e:
             out, exc = None, repr(e)[:300]
         conn.send(("end", k, time.time() - t0, out, exc, list(events),
-                   [len(ctx.expand_stack), len(ctx.lua_env_stack), len(ctx.lua_frame_stack)]))
+                   [len(ctx.expand_stack), len(ctx.lua_env_stack), len(ctx.lua_frame_stack)], list(late)))
     follow = []
     for text, _ in FOLLOW:
         try:
@@ -236,11 +253,14 @@ def run_histories(hists, base: Path, nproc: int = 16):
                     if m[0] == "start":
                         r["cur"] = (m[1], time.time())
                         r["evs"] = []
+                        r["late"] = []
                     elif m[0] == "ev":
                         r.setdefault("evs", []).append(m[1])
+                    elif m[0] == "late":
+                        r.setdefault("late", []).append(m[1])
                     elif m[0] == "end":
-                        _, k, el, out, exc, evs, stacks = m
-                        r["runs"].append({"k": k, "elapsed": round(el, 2), "out": out, "exc": exc, "events": evs,
+                        _, k, el, out, exc, evs, stacks, late = m
+                        r["runs"].append({"k": k, "elapsed": round(el, 2), "out": out, "exc": exc, "events": evs, "late": late,
                                           "stacks": stacks, "cls": classify_run(k, el, out, exc)})
                         r["cur"] = None
                     elif m[0] == "follow":
@@ -257,11 +277,11 @@ def run_histories(hists, base: Path, nproc: int = 16):
             r["p"].join()
             if hung:
                 r["runs"].append({"k": r["cur"][0], "elapsed": round(LIMIT + KILL, 2), "out": None, "exc": None,
-                                  "events": list(r.get("evs", [])), "stacks": None, "cls": "hung"})
+                                  "events": list(r.get("evs", [])), "late": list(r.get("late", [])), "stacks": None, "cls": "hung"})
             elif r["follow"] is None and not hung:
                 if stuck or r["p"].exitcode != 0 or len(r["runs"]) < len(r["progs"]):
                     r["runs"].append({"k": len(r["runs"]), "elapsed": None, "out": None, "exc": f"child died (exit {r['p'].exitcode})",
-                                      "events": None, "stacks": None, "cls": "exception"})
+                                      "events": None, "late": [], "stacks": None, "cls": "exception"})
             results[r["hi"]] = {"runs": r["runs"], "follow": r["follow"]}
             running.remove(r)
     return [results[i] for i in range(len(hists))]
@@ -279,13 +299,27 @@ def predictions(c):
     return {frozenset(x["dev"]): set(x["r"]) for x in c["preds"]}
 
 
-def explain(c, real):
-    """Smallest deviation set under which the model allows the observed class."""
+def inband_at(run):
+    """Wrapper indices at which the running module itself saw the time limit come back from a nested invocation
+    as an in-band element (len(wrap) + 1 = the benign invocations of body invloop)."""
+    if not run:
+        return []
+    at = {int(e[1]) for e in (run.get("events") or []) if e[0] == "nret" and len(e) > 2 and e[2] == "timeout"}
+    return sorted(at | set(run.get("late") or []))
+
+
+def explain(c, real, run=None):
+    """Smallest deviation set under which the model allows the observed class; among sets of the same size one
+    that agrees with what the module reported (a nested timeout handed over in-band <=> NestedTimeoutInBand)."""
+    seen = bool(inband_at(run))
     best = None
     for dev, r in predictions(c).items():
-        if real in r and (best is None or len(dev) < len(best) or (len(dev) == len(best) and sorted(dev) < sorted(best))):
-            best = dev
-    return best
+        if real not in r:
+            continue
+        k = (len(dev), ("NestedTimeoutInBand" in dev) != seen, sorted(dev))
+        if best is None or k < best[0]:
+            best = (k, dev)
+    return best and best[1]
 
 
 def obs_class(cls):
@@ -306,7 +340,14 @@ def load_programs(o, thorough):
 
 
 def fresh_follow(base: Path):
-    res = run_histories([[]], base / "fresh")[0]
+    """The benign invocations on a new context (the reference of the follow-up comparison).  Their limit is
+    generous, but on an overloaded machine even that can run out: tried again before it counts as a failure."""
+    want = [w for _, w in FOLLOW]
+    res = None
+    for attempt in range(3):
+        res = run_histories([[]], base / f"fresh{attempt}")[0]
+        if res["follow"] == want:
+            break
     if res["follow"] is None:
         raise RuntimeError("benign invocations failed on a fresh context")
     return res["follow"]
@@ -323,17 +364,18 @@ def judge(o, c, run, follow, fresh, where, recheck=None):
         o.violation(case, f"{key(c)}: expand() did not produce an in-band result ({run['exc'] or run['out']!r})", cls="not-in-band")
         return real
     if real != want:
-        dev = explain(c, real)
+        dev = explain(c, real, run)
         why = {
             "returned": "returned normally although a timeout error had been raised (swallowed by the module)" if want == "aborted" else "returned normally",
             "hung": f"not aborted within {LIMIT}+{BOUND} s (killed after {LIMIT + KILL} s)" if run["cls"] == "hung" else f"aborted only after {run['elapsed']} s",
             "error": "ended with an ordinary Lua error element",
             "aborted": "aborted by the time limit",
         }[real]
-        inband = sorted({int(e[1]) for e in (run["events"] or []) if e[0] == "nret" and len(e) > 2 and e[2] == "timeout"})
+        inband = inband_at(run)
         if inband:
-            why += (f"; the time limit struck inside the nested invocation made at wrapper {inband[0]} ({c['wrap'][inband[0] - 1]}): it came back to the "
-                    "enclosing module as the in-band 'Lua timeout error' element of the nested function and the enclosing module carried on")
+            at = f"made by wrapper {inband[0]} ({c['wrap'][inband[0] - 1]})" if inband[0] <= len(c["wrap"]) else "made by the body's loop"
+            why += (f"; the time limit struck inside the nested invocation {at}: it came back to the enclosing module as the "
+                    "in-band 'Lua timeout error' element of the nested function and the enclosing module carried on")
             case["nested_timeout_in_band_at_wrapper"] = inband
         if dev is None:
             o.violation(case, f"{key(c)}: {why}; demanded: {want}; no modelled deviation predicts this", cls="unexplained:" + real)
@@ -355,7 +397,9 @@ SESSION_MODULES = {
             "function p.spin(frame) while true do end end\n"
             "function p.nmspin(frame) pcall(frame.preprocess, frame, '{{#invoke:c07nomodule|f}}') while true do end end\n"
             "function p.nfspin(frame) pcall(frame.preprocess, frame, '{{#invoke:c07s|nosuchfn}}') while true do end end\n"
-            "function p.nbspin(frame) pcall(frame.preprocess, frame, '{{#invoke:c07bad|f}}') while true do end end\nreturn p\n",
+            "function p.nbspin(frame) pcall(frame.preprocess, frame, '{{#invoke:c07bad|f}}') while true do end end\n"
+            "function p.nspin(frame) local r = frame:preprocess('{{#invoke:c07s|spin}}') return 'after:' .. tostring(r) end\n"
+            "function p.nlspin(frame) while true do pcall(function() frame:preprocess('{{#invoke:c07s|spin}}') end) end end\nreturn p\n",
     "c07bad": "local p = {}\nfunction p.f(frame) return 'x' end\nreturn p p\n",  # chunk does not compile
 }
 ERR_ELEM = re.compile(r'^<strong class="error">Lua execution error in Module:[\w:]+ function \w+</strong>$')
@@ -378,7 +422,8 @@ def session_child(sess, d, conn):
     ctx.start_page("Tt")
     call = {"heavy": "{{#invoke:c07s|heavy}}", "spin": "{{#invoke:c07s|spin}}", "nofn": "{{#invoke:c07s|nosuchfn}}",
             "nomod": "{{#invoke:c07nomodule|f}}", "bad": "{{#invoke:c07bad|f}}",
-            "nmspin": "{{#invoke:c07s|nmspin}}", "nfspin": "{{#invoke:c07s|nfspin}}", "nbspin": "{{#invoke:c07s|nbspin}}"}
+            "nmspin": "{{#invoke:c07s|nmspin}}", "nfspin": "{{#invoke:c07s|nfspin}}", "nbspin": "{{#invoke:c07s|nbspin}}",
+            "nspin": "{{#invoke:c07s|nspin}}", "nlspin": "{{#invoke:c07s|nlspin}}"}
     for i, st in enumerate(sess):
         if st["k"] == "pause":
             time.sleep(LIMIT + 1.3)
@@ -442,7 +487,7 @@ def session_outcome(st, rec):
     if isinstance(out, str) and out.startswith("EXC "):
         return "exception"
     if isinstance(out, str) and TMO_ELEM.match(out):
-        spins = ("spin", "nmspin", "nfspin", "nbspin")
+        spins = ("spin", "nmspin", "nfspin", "nbspin", "nspin", "nlspin")
         return "timeout-in-bound" if (st["k"] in spins and elapsed <= LIMIT + BOUND) else ("timeout-late" if st["k"] in spins else "timeout")
     if isinstance(out, str) and ERR_ELEM.match(out):
         return "error"
@@ -455,6 +500,9 @@ def check_sessions(o, d: Path):
     dm = tlc("Gen_LuaSession", "Demo_LuaSession_kept.cfg", workers=1, check=False)
     if not dm.invariant_violated:
         raise common.TLCError("Demo_LuaSession_kept lost its counterexample")
+    dm = tlc("Gen_LuaSession", "Demo_LuaSession_inband.cfg", workers=1, check=False)
+    if not dm.invariant_violated:
+        raise common.TLCError("Demo_LuaSession_inband lost its counterexample")
     cases = r.cases
     res = run_sessions([c["sess"] for c in cases], d / "sessions")
 
@@ -547,17 +595,21 @@ def run(tier: str) -> int:
         if fresh != want_follow:
             raise RuntimeError(f"benign modules do not run on a fresh context: {[(a, b) for a, b in zip(fresh, want_follow) if a != b][:2]}")
         res = run_histories([[c] for c in cases], d / "single")
-        # timing-dependent verdicts are re-executed (alone) before they are believed
-        redo = []
-        for i, (c, r) in enumerate(zip(cases, res)):
+        # Every verdict of this check depends on time (a starved child process is "late" or "hung", a benign
+        # follow-up can run out of its limit): anything that is not what the property demands is re-executed
+        # (few at a time) before it is believed - whether or not a modelled deviation would explain it.
+
+        def suspect(c, r):
             if not r["runs"]:
-                redo.append(i)
-                continue
-            cls = r["runs"][0]["cls"]
-            if cls in ("late", "exception", "other") or (obs_class(cls) != c["demand"] and explain(c, obs_class(cls)) is None):
-                redo.append(i)
+                return True
+            run0 = r["runs"][0]
+            return (obs_class(run0["cls"]) != c["demand"] or run0["cls"] in ("exception", "other")
+                    or (run0["stacks"] is not None and run0["stacks"] != [1, 0, 0])
+                    or (run0["cls"] != "hung" and r["follow"] != fresh))
+
+        redo = [i for i, (c, r) in enumerate(zip(cases, res)) if suspect(c, r)]
         if redo:
-            again = run_histories([[cases[i]] for i in redo], d / "redo", nproc=4)
+            again = run_histories([[cases[i]] for i in redo], d / "redo", nproc=4 if len(redo) <= 8 else 8)
             for i, r in zip(redo, again):
                 res[i] = r
         o.extra["reexecuted"] = len(redo)
@@ -572,6 +624,9 @@ def run(tier: str) -> int:
             real = judge(o, c, run0, r["follow"], fresh, "single program on a new context")
             observed[key(c)] = real
             traces.append((c, run0, real))
+            if r["follow"] is None and run0["cls"] != "hung":
+                o.violation({"kind": "G", "program": {"body": c["body"], "wrap": c["wrap"]}, "lua": render(c["body"], c["wrap"]), "observed": run0["cls"]},
+                            f"after {key(c)} ({run0['cls']}) the benign invocations on the same context did not come to an end", cls="follow-up")
             if r["follow"] is not None:
                 o.evaluations += len(FOLLOW)
                 for (text, _), got, exp in zip(FOLLOW, r["follow"], fresh):
@@ -584,14 +639,26 @@ def run(tier: str) -> int:
         o.sample({"program": key(cases[len(cases) // 2]), "lua": render(cases[len(cases) // 2]["body"], cases[len(cases) // 2]["wrap"])[-300:]})
         o.extra["observed_classes"] = {k: sum(1 for v in observed.values() if v == k) for k in sorted(set(observed.values()))}
         # ---- histories: several programs that do end, one context, then the benign invocations
+        # (programs that ended as demanded when run alone - nested invocations included - or that no deviation lets hang)
         ending = [c for c in cases if observed[key(c)] in ("aborted", "error", "returned")
-                  and not any("hung" in r for r in predictions(c).values())]
+                  and (observed[key(c)] == c["demand"] or not any("hung" in r for r in predictions(c).values()))]
         hists = []
         nh = 24 if thorough else 6
         for _ in range(nh):
             if len(ending) >= 2:
                 hists.append([rng.choice(ending) for _ in range(3)])
         hres = run_histories(hists, d / "hist")
+
+        def hist_suspect(h, r):
+            return (r["follow"] != fresh or len(r["runs"]) != len(h)
+                    or any(obs_class(rr["cls"]) != observed[key(c)] and obs_class(rr["cls"]) != c["demand"] for c, rr in zip(h, r["runs"])))
+
+        hredo = [i for i, (h, r) in enumerate(zip(hists, hres)) if hist_suspect(h, r)]   # same protection as above
+        if hredo:
+            again = run_histories([hists[i] for i in hredo], d / "hist-redo", nproc=2)
+            for i, r in zip(hredo, again):
+                hres[i] = r
+        o.extra["histories_reexecuted"] = len(hredo)
         for h, r in zip(hists, hres):
             o.traces += 1
             o.shape(("hist", tuple(key(c) for c in h)))
@@ -645,7 +712,7 @@ def validate_traces(o, traces, d: Path):
     for c, run, real in traces:
         if run["events"] is None:
             continue  # killed: the events stayed in the child (the outcome class was compared above)
-        dev = explain(c, real)
+        dev = explain(c, real, run)
         if dev is None:
             continue  # already reported as unexplained
         evs, complete = abstract_events(c, run, real)
